@@ -106,6 +106,20 @@ claim("C07",
       "TLA+ specification with exact time propagation, TLC audit, TLC trace validation of real call chains",
       "DESIGN.md section 4 C07")
 
+claim("C03",
+      "Cart.tla gives the closed form of the geodetic-to-Cartesian conversion at positions whose latitude and longitude have "
+      "rational sine and cosine (Pythagorean triples, incl. equator and poles) for any rational (a, 1/f), with the reciprocal and "
+      "reciprocal square root obtained by Newton steps in exact fixed-point arithmetic and verified in the spec. MC_Cart (TLC) "
+      "enumerates the lattice (35 latitudes x 68 longitudes x 9 heights) and, in thorough, checks the closed form against the "
+      "sphere. Trace_Cart (TLC) decides on values observed from the real code: llh2xyz within 1 um of the closed form on the "
+      "lattice for 4 shipped + random ellipsoids (equator and poles on every ellipsoid, +-360 deg longitude turns, angle-object "
+      "arguments bit-identical), xyz2llh longitude in [-180, 180] and llh2xyz(xyz2llh(P)) = P within 0.02 mm for Cartesian points "
+      "generated both from geodetic strata and directly in all octants (incl. 1 mm..100 m off the axis, z = 0, heights -10 km..4e7 m).",
+      "Trusted: TLC, BigFix; alpha's exact decimal encoding; lattice inputs are degrees(atan2(p, q)) (1e-9 m input rounding). "
+      "The inverse is decided by closure against a forward that is decided exactly; inverse points are seeded samples.",
+      "TLA+ specification with closed form in exact fixed-point arithmetic on a rational-trigonometry lattice enumerated by TLC, TLC trace validation",
+      "DESIGN.md section 4 C03")
+
 NOT_YET = "check not built yet in this session (work in progress; see DESIGN.md section 8 for build order)"
 
 
